@@ -26,12 +26,17 @@ import (
 //   chan : channel(s) of the document itself
 //   acc  : [{u:[names], c:[channels]}]  -> access(u, c)   (a name "role:x" addresses role x)
 //   rol  : [{u:[users], r:["role:x"]}]  -> role(u, r)
+//   fail : after the grant calls the function refuses the write (forbidden) or dies
+//          with a JavaScript exception: nothing is stored, so nothing may be granted
 const vfC03SyncFn = `function(doc, oldDoc, meta) {
 	channel(doc.chan);
 	var a = doc.acc || [];
 	for (var i = 0; i < a.length; i++) { access(a[i].u, a[i].c); }
 	var r = doc.rol || [];
 	for (var j = 0; j < r.length; j++) { role(r[j].u, r[j].r); }
+	if (doc.fail == "forbidden") { throw({forbidden: "verif: refused after the grant calls"}); }
+	if (doc.fail == "typeerror") { var nothing = null; nothing.boom(); }
+	if (doc.fail == "throwstring") { throw("verif: plain exception after the grant calls"); }
 }`
 
 var (
@@ -387,6 +392,7 @@ type vfC03Case struct {
 	lateSeen       bool
 	classes        map[string]bool
 	pendingRevoker string // kind of the action just executed (for classifying revokes)
+	refusedPending bool   // a refused/crashed write happened and no successful document write since
 }
 
 func (c *vfC03Case) render() string { return strings.Join(c.ops, "; ") }
@@ -626,6 +632,36 @@ func (c *vfC03Case) actDocWrite(rt *rapid.T) {
 	c.pendingRevoker = "doc-" + kind
 }
 
+// actDocWriteRefused: a write whose sync function calls access()/role() and is then refused or
+// dies with an exception. No revision is stored, so the model does not change; whatever the
+// function collected before failing must not reach any principal, now or with a later write.
+func (c *vfC03Case) actDocWriteRefused(rt *rapid.T) {
+	id := rapid.SampledFrom(vfC03Docs).Draw(rt, "doc")
+	d := c.doc(id)
+	acc, rol := vfC03GenGrants(rt)
+	if len(acc) == 0 && len(rol) == 0 {
+		acc = []vfC03Grant{{Who: []string{rapid.SampledFrom(append(append([]string{}, vfC03Users...), "role:"+vfC03Roles[0])).Draw(rt, "who")}, What: []string{rapid.SampledFrom(vfC03Channels).Draw(rt, "what")}}}
+	}
+	fail := rapid.SampledFrom([]string{"forbidden", "typeerror", "typeerror", "throwstring"}).Draw(rt, "fail")
+	c.n++
+	body := vfC03Body(c.n, acc, rol)
+	body["fail"] = fail
+	parent := ""
+	if w := d.winner(); w != nil && !w.deleted {
+		parent = w.id
+		body[BodyRev] = parent
+	}
+	c.ops = append(c.ops, fmt.Sprintf("docWriteRefused(%s %s parent=%q n=%d%s)", id, fail, parent, c.n, vfC03RenderGrants(acc, rol)))
+	var rev string
+	var err error
+	c.guard(func() { rev, _, err = c.env.Coll.Put(c.env.Ctx, id, body) })
+	if err == nil {
+		c.harnessErr("Put(%s) with a sync function that fails (%s) was accepted as %s", id, fail, rev)
+	}
+	c.classes["act:doc-refused-"+fail] = true
+	c.refusedPending = true
+}
+
 func (c *vfC03Case) actDocDelete(rt *rapid.T) {
 	var cands []string
 	for _, id := range vfC03Docs {
@@ -838,6 +874,7 @@ func vfC03Run(t *testing.T, rec *kit.Rec, rt *rapid.T) {
 		"docWrite2":   c.actDocWrite,
 		"docWrite3":   c.actDocWrite,
 		"docDelete":   c.actDocDelete,
+		"docRefused":  c.actDocWriteRefused,
 		"docConflict": c.actDocConflict,
 		"":            c.check,
 	})
